@@ -51,7 +51,7 @@ static int A_alg, DEC;
 static node *nodes; static int nnodes;
 static int *htab; static int hsize = 1 << 19;
 static long transitions, replays, merged, nonconfluent;
-static int maxdepth;
+static int maxdepth, chunkmul = 2;
 typedef struct { uint64_t w[64]; } objbuf;
 
 static uint32_t hkey(const node *n)
@@ -165,12 +165,12 @@ static void explore(void)
         hop cand[600]; int nc = 0;
         if (!nd.term) {
             if (M->has_absorb && !nd.sq) /* absorbing after any squeeze call is outside the property */
-                for (int n = 0; n <= 2 * M->in_rate + 1 && nd.a + n <= M->amax; n++) {
+                for (int n = 0; n <= chunkmul * M->in_rate + 1 && nd.a + n <= M->amax; n++) {
                     cand[nc++] = (hop){OP_ABSORB, (uint16_t)n};
                     if (M->has_inplace) cand[nc++] = (hop){OP_ABSORB_INPLACE, (uint16_t)n};
                 }
             if (M->squeeze)
-                for (int n = 0; n <= 2 * M->out_rate + 1 && nd.s + n <= M->smax; n++) cand[nc++] = (hop){OP_SQUEEZE, (uint16_t)n};
+                for (int n = 0; n <= chunkmul * M->out_rate + 1 && nd.s + n <= M->smax; n++) cand[nc++] = (hop){OP_SQUEEZE, (uint16_t)n};
             if (M->terminal && !nd.sq) cand[nc++] = (hop){OP_FINAL, 0};
             if (M->has_copy) cand[nc++] = (hop){OP_COPY, 0};
         }
@@ -351,8 +351,9 @@ int main(int argc, char **argv)
         m.init = aead_init; m.reinit = aead_reinit; m.absorb = aead_process; m.final = aead_final; m.freef = aead_free; m.canon = aead_canon;
     } else { fprintf(stderr, "unknown machine %s\n", mn); return 2; }
     m.amax = m.has_absorb ? 3 * m.in_rate + 2 : 0;
-    m.smax = (tier ? 6 : 3) * m.out_rate + 2;
-    if (tier && m.has_absorb) m.amax = (m.in_rate >= 32 ? 4 : 5) * m.in_rate + 2;
+    m.smax = (tier ? 10 : 3) * m.out_rate + 2;
+    if (tier && m.has_absorb) m.amax = (m.in_rate >= 32 ? 6 : 9) * m.in_rate + 2;
+    if (tier) chunkmul = 3;
     M = &m;
     char kb[64]; snprintf(kb, sizeof kb, "chunking:%s", M->name);
     /* expectations from the library's own one-shot calls, cross-checked against the reference */
